@@ -44,10 +44,13 @@ Definition math_spec (op : binop) (a b z : Z) : Prop :=
   | BOr => z = Z.lor a b
   | BXor => z = Z.lxor a b
   | Pow => 0 <= b /\ z = a ^ b
+  (* decimals: values scaled by DEC; * and / truncate toward zero on the exact scaled quotient *)
+  | DMul => exists r, a * b = DEC * z + r /\ Z.abs r < Z.abs DEC /\ 0 <= r * (a * b)
+  | DDiv => b <> 0 /\ exists r, a * DEC = b * z + r /\ Z.abs r < Z.abs b /\ 0 <= r * (a * DEC)
   end.
 
 Definition is_checked (op : binop) : bool :=
-  match op with Add | Sub | Mul | Div | Mod | Pow => true | _ => false end.
+  match op with Add | Sub | Mul | Div | Mod | Pow | DMul | DDiv => true | _ => false end.
 
 (* exponentiation helpers *)
 Lemma pow_val_ok a b v : 0 <= b -> pow_val a b = Some v -> v = a ^ b.
@@ -129,6 +132,11 @@ Proof.
       split; auto. split; auto. eapply pow_val_ok; eauto.
     + destruct (bits <? b); [discriminate|].
       destruct (in_range bits sg (a ^ b)) eqn:E; intros H0; inversion H0; subst. split; auto.
+  - destruct (in_range bits sg (Z.quot (a * b) DEC)) eqn:E; intros H; inversion H; subst.
+    split; auto. apply quot_spec. unfold DEC. lia.
+  - destruct (b =? 0) eqn:Eb; [discriminate|]. apply Z.eqb_neq in Eb.
+    destruct (in_range bits sg (Z.quot (a * DEC) b)) eqn:E; intros H; inversion H; subst.
+    split; auto. split; auto. apply quot_spec; auto.
 Qed.
 
 (* the truncated quotient / remainder are unique, so [math_spec] determines the result *)
@@ -170,6 +178,10 @@ Proof.
   - intros [Hb [q1 [E1 [B1 S1]]]] [_ [q2 [E2 [B2 S2]]]].
     destruct (trunc_div_unique a b q1 z1 q2 z2); auto.
   - intros [_ ->] [_ ->]. reflexivity.
+  - intros [r1 [E1 [B1 S1]]] [r2 [E2 [B2 S2]]].
+    destruct (trunc_div_unique (a * b) DEC z1 r1 z2 r2); auto. unfold DEC; lia.
+  - intros [Hb [r1 [E1 [B1 S1]]]] [_ [r2 [E2 [B2 S2]]]].
+    destruct (trunc_div_unique (a * DEC) b z1 r1 z2 r2); auto.
 Qed.
 
 (* None exactly when the mathematical result does not exist (division by zero) or does not fit *)
@@ -212,6 +224,19 @@ Proof.
     + destruct (bits <? b) eqn:Eg.
       * apply pow_too_big; auto. lia.
       * destruct (in_range bits sg (a ^ b)); [discriminate | reflexivity].
+  - (* DMul *)
+    destruct (in_range bits sg (Z.quot (a * b) DEC)) eqn:E; [discriminate|]. intros _. split; auto. right.
+    intros z Hz.
+    assert (math_spec DMul a b (Z.quot (a * b) DEC)) by (unfold math_spec; apply quot_spec; unfold DEC; lia).
+    rewrite (math_spec_functional DMul a b z (Z.quot (a * b) DEC)); auto.
+  - (* DDiv *)
+    destruct (b =? 0) eqn:Eb.
+    { apply Z.eqb_eq in Eb. intros _. split; auto. right. intros z [Hz _]. contradiction. }
+    apply Z.eqb_neq in Eb.
+    destruct (in_range bits sg (Z.quot (a * DEC) b)) eqn:E; [discriminate|]. intros _. split; auto. right.
+    intros z Hz.
+    assert (math_spec DDiv a b (Z.quot (a * DEC) b)) by (unfold math_spec; split; auto; apply quot_spec; auto).
+    rewrite (math_spec_functional DDiv a b z (Z.quot (a * DEC) b)); auto.
 Qed.
 
 (* shifts: the left shift is the unique representative in the type's range of a * 2^b modulo 2^bits; the right shift is
